@@ -590,7 +590,20 @@ def case_sequence(case):
         viol += [(k, f'step {i} of {name}: {m}') for k, m in v]
         obs.append(o)
         if feed:
-            st, y, _ = run_edfa(x, G, NF, None if bwf is None else bwf * fs_, seeded_answer(N, seed + 1 + i), N, 'pos', stats)
+            b = seeded_answer(N, seed + 1 + i)
+            st, y, _ = run_edfa(x, G, NF, None if bwf is None else bwf * fs_, b, N, 'pos', stats)
+            if st == 'exc' and bwf is not None:
+                # the filter itself rejects the record (too short for filtfilt): C11's business, the chain ends here
+                from opticomlib.devices import BPF
+                stu, yu, _ = run_edfa(x, G, NF, None, b, N, 'pos', stats)
+                try:
+                    BPF(yu, bwf * fs_)
+                    ref_exc = None
+                except Exception as e:
+                    ref_exc = e
+                if stu == 'ok' and type(ref_exc) is type(y):
+                    stats['bw_filter_rejects_record'] = stats.get('bw_filter_rejects_record', 0) + 1
+                    break
             if st == 'exc' or structure(y, N):
                 viol.append(('seq:stage-fails', f'step {i} of {name}: EDFA fails: {y!r}'))
                 break
@@ -947,7 +960,7 @@ def sequence_cases(quick, seed):
     """call sequences on ONE shared input object"""
     S = [(('fs', 16e9),), (('fs', 16e9), ('wavelength', 1310e-9)), (('fs', 160e9), ('wavelength', 1550e-9)),
          (('sps', 8), ('R', 2.5e9), ('wavelength', 850e-9)), (('sps', 16), ('R', 1e9), ('N', 32)), (('R', 3e9), ('fs', 40e9), ('wavelength', 1625e-9))]
-    inputs = [(16, '1pol', 'complex'), (16, '2pol-empty-y', 'complex')] + ([] if quick else [(16, '1pol', 'absent'), (17, '2pol', 'int'), (2, '2pol', 'complex')])
+    inputs = [(16, '1pol', 'complex'), (16, '2pol-empty-y', 'complex'), (2, '2pol', 'complex')] + ([] if quick else [(16, '1pol', 'absent'), (17, '2pol', 'int')])
     out = []
     # grid switches g1, g2, g1 (every ordered pair, incl. g1 = g2: the plain repeated call), reconfigured with and without gv.clean()
     for (N, lay, nk), (G, NF) in itertools.product(inputs, [(3, 3), (40, 10)] if quick else [(3, 3), (20, 5), (40, 10)]):
